@@ -56,7 +56,11 @@ Input classes (INPUT-CLASSES.md; measured per executed call in coverage.classes,
   K2 block boundaries       NEW: sizes 3..5, 7..9, 15..17, 31..33, 63..65 for vectors, matrix rows / columns, list elements (block-size generator mode,
                             MaxDim 66), strings of 255 / 256 / 257 characters, out-of-range indices in mid range (MaxDim+8, MaxDim+65)
   K3 location               outside the quantifier (container calls do no arithmetic on the cells)
-  K4 magnitude              NEW: "huge" palette (1, 2^31+5, 2^32+1 as double / size_t; 65537, INT_MAX as int; signed), far indices (size_t)-1, 2^63, 2^63+1, 2^32
+  K4 magnitude              NEW: "huge" palette (1, 2^31+5, 2^32+1 as double / size_t; 65537, INT_MAX as int; signed), far indices (size_t)-1, 2^63, 2^63+1, 2^32;
+                            long number text (K4:long-number-text): StrVectorAppendDouble with +-1e24, 1e25, -1e30, 1e55..1e57, +-1e120, 1e121, -1e247, 1e248,
+                            1e250, 1e300, +-DBL_MAX (text of 31 / 32 / 33, 39, 63..65, 127..129, 255..257, 308, 316 / 317 characters) and DBL_MIN / 1e-300 ("0.000000"),
+                            StrVectorAppendInt with INT_MIN / INT_MAX: the model's cell is the number's code, the harness expands it to the "%f" / "%d"
+                            text with snprintf into a buffer of the required size and compares length and content
   K5 non-representable      NEW: "frac" palette (0.1, 0.2, 0.3)
   K6 processor counts       not applicable (no container routine reaches an MT_* kernel)
   K7 in-process histories   40 calls per process with slots deleted and re-created, append after resize to 0, Extend(a, a); NEW: the operand is a member of
@@ -68,7 +72,8 @@ Input classes (INPUT-CLASSES.md; measured per executed call in coverage.classes,
 
 Operation alphabet against the public headers (vector.h, matrix.h, tensor.h, list.h)
   modelled (action of Containers.tla): New/init/Del/Resize/Append/RemoveAt/Copy/Extend/set/get/HasValue/IndexOf/Set(fill)/Sort/Print
-      of dvector, uivector, ivector (each where the header has it); init/New/Del/Resize/Append/AppendInt/AppendDouble/setStr/getStr/
+      of dvector, uivector, ivector (each where the header has it); init/New/Del/Resize/Append/AppendInt/AppendDouble (small values and the
+      long-number-text set)/setStr/getStr/
       Extend/Print of strvector and SplitString, StrVectorAppend / setStr also with one of the vector's OWN strings (the pointer getStr
       returns) as the argument; init/New/Del/Resize/MatrixSet/MatrixCopy/set/get/getMatrixRow/getMatrixColumn/
       MatrixAppendRow/Col/UIRow/UICol/MatrixDeleteRowAt/ColAt/MatrixSort/MatrixReverseSort/MatrixColumnMinMax/ValInMatrix/PrintMatrix;
@@ -98,7 +103,7 @@ LEVEL_TEXT = ("The shadow model is checked exhaustively by TLC (breadth-first, e
               "bounded depth) for shape consistency, guards on dead containers, framing (deep copies), the growth/shrink/sort/extend/resize laws and the "
               "algebraic theorems; the real library is bound to it by replaying TLC-generated histories (length 40, pool of 4 per kind, operand lengths "
               "around the current dimensions, dimensions up to 66 with sizes around 4/8/16/32/64, cell values up to 2^32+1 / INT_MAX and non-representable "
-              "tenths, strings of 255..257 characters) under AddressSanitizer/UBSan and on the plain build with freed addresses reused, with liveness, "
+              "tenths, strings of 255..257 characters, numbers whose decimal text has 31..317 characters) under AddressSanitizer/UBSan and on the plain build with freed addresses reused, with liveness, "
               "dimensions, every cell and pointer ownership compared with the model after every call, and every observed sort result validated by TLC.")
 LEVEL_NOTE = ("Model checking covers the specification within the stated bounds; the implementation is bound to it by sampled histories (counts in "
               "the evidence), not exhaustively. Trusts TLC, ASan/UBSan as the memory monitor, and the harness's comparison code. Operations whose "
@@ -123,6 +128,8 @@ JOBS = _jobs()
 ALL_KINDS = ["dv", "uv", "iv", "sv", "mx", "tn", "dl"]
 KIDX = {k: i for i, k in enumerate(ALL_KINDS)}
 UNSET = "<unset>"
+NUMVAL = {"DBL_MAX": "1.7976931348623157e308", "-DBL_MAX": "-1.7976931348623157e308", "DBL_MIN": "2.2250738585072014e-308",
+          "INT_MIN": "-2147483648", "INT_MAX": "2147483647"}
 LONGSTR = {"<L255>": "x" * 255, "<L256>": "y" * 256, "<L257>": "z" * 257}
 
 EXCLUDED_OPS = [
@@ -151,9 +158,9 @@ VEC_ACTS = {"dv": ["VNew", "VInit", "VDel", "VResize", "VAppend", "VRemoveAt", "
             "uv": ["VNew", "VInit", "VDel", "VResize", "VAppend", "VRemoveAt", "VExtend", "VSet", "VSetOor", "VGet", "VGetOor", "VHas", "VIndexOf", "VFill", "VSort", "VPrint"],
             "iv": ["VNew", "VInit", "VDel", "VAppend", "VRemoveAt", "VExtend", "VSet", "VSetOor", "VGet", "VGetOor", "VHas", "VFill", "VPrint"]}
 GROUP_PREFIX = {"sv": "Sv", "mx": "Mx", "tn": "Tn", "dl": "Dl"}
-MC_QUICK = [("dv", "dv", ["neg", "self"], 3, [0, 1], 6, 2), ("uv", "uv", [], 3, [0, 1, 2], 6, 2), ("iv", "iv", ["neg"], 3, [0, 1], 6, 2), ("sv", "sv", ["neg"], 2, [0, 1], 5, 2),
+MC_QUICK = [("dv", "dv", ["neg", "self"], 3, [0, 1], 6, 2), ("uv", "uv", [], 3, [0, 1, 2], 6, 2), ("iv", "iv", ["neg"], 3, [0, 1], 6, 2), ("sv", "sv", ["neg", "bignum-mc"], 2, [0, 1], 5, 2),
             ("dl", "dl", [], 2, [0, 1, 2], 5, 2), ("mx", "mx", ["neg", "self"], 2, [0, 1], 4, 4), ("tn", "tn", ["self"], 2, [0, 1], 4, 4)]
-MC_THOROUGH = [("dv", "dv", ["neg", "self"], 4, [0, 1], 8, 3), ("uv", "uv", [], 4, [0, 1, 2], 8, 3), ("iv", "iv", ["neg"], 4, [0, 1], 8, 3), ("sv", "sv", ["neg", "long"], 3, [0, 1], 5, 3),
+MC_THOROUGH = [("dv", "dv", ["neg", "self"], 4, [0, 1], 8, 3), ("uv", "uv", [], 4, [0, 1, 2], 8, 3), ("iv", "iv", ["neg"], 4, [0, 1], 8, 3), ("sv", "sv", ["neg", "long", "bignum-mc"], 3, [0, 1], 5, 3),
                ("dl", "dl", ["neg"], 2, [0, 1], 8, 3), ("dl_shapes", "dl", [], 3, [0], 7, 2),      # values on lists of <= 2 vectors; shapes (lengths 0..3, zeros only) one level deeper
                ("mx", "mx", ["neg", "self"], 2, [0, 1], 6, 8), ("tn", "tn", ["self"], 2, [0, 1, 2], 4, 8)]
 INVARIANTS = ["Shape", "TypeOK", "DeadIsEmpty", "KindsOff", "DepthBound", "Theorems"]
@@ -201,7 +208,7 @@ def model_check(ctx, rd):
 
 # ------------------------------------------------------------------------------------------------ (GEN)
 # (Kinds incl. switches, histories, MaxDim, mode)   mode: "small" | "big" (K2 block sizes) | "self" (self-copies: EXTRA only)
-SW = ["neg", "long"]
+SW = ["neg", "long", "bignum"]
 GEN_QUICK = [(ALL_KINDS + SW, 96, 5, "small"), (["mx", "dv"] + SW, 48, 5, "small"), (["tn"] + SW, 40, 5, "small"), (["sv"] + SW, 28, 5, "small"),
              (["dv"] + SW, 10, 5, "small"), (["uv"] + SW, 10, 5, "small"), (["iv"] + SW, 10, 5, "small"), (["dl"] + SW, 10, 5, "small"),
              (["dv", "uv", "iv"] + SW, 24, 66, "big"), (["mx", "dv"] + SW, 24, 66, "big"), (["mx"] + SW, 16, 66, "big"), (["tn"] + SW, 8, 34, "big"), (["sv", "dl"] + SW, 10, 66, "big"),
@@ -258,7 +265,7 @@ def gen_one(ctx, rd, i, kinds, num, maxdim):
 def refinement_run(ctx, rd):
     """simulated GenSpec behaviours checked against [][Next]_vars: the generator only produces steps of the model-checked relation"""
     cfg = tlc.write_cfg(os.path.join(rd, "REF_Containers.cfg"), spec="GenSpec",
-                        constants=dict(Pool='{"a", "b", "c"}', MaxDim=3, Vals={0, 1}, Kinds=_kinds_cfg(ALL_KINDS + ["neg", "self", "long"]), Depth=40),
+                        constants=dict(Pool='{"a", "b", "c"}', MaxDim=3, Vals={0, 1}, Kinds=_kinds_cfg(ALL_KINDS + ["neg", "self", "long", "bignum"]), Depth=40),
                         invariants=["Shape", "TypeOK", "DeadIsEmpty"], properties=["GenRefinesNext"] + LAWS, deadlock=False)
     r = tlc.run("Containers", cfg, workers=1, timeout=1500, simulate="num=%d" % (10 if ctx.quick else 100), depth=40, seed=ctx.seed & 0x7FFFFFFF, xmx="3g")
     if not r.ok:
@@ -317,7 +324,7 @@ VEC_NAMES = {
 LAYOUT = {
     "initStrVector": "x:s", "NewStrVector": "x:s n:i", "DelStrVector": "x:s", "StrVectorResize": "x:s n:i", "StrVectorAppend": "x:s s:S", "StrVectorAppendInt": "x:s v:i",
     "StrVectorAppendDouble": "x:s v:i", "setStr": "x:s i:i s:S", "getStr": "x:s i:i rets:T", "StrVectorExtend": "a:s b:s y:s", "PrintStrVector": "x:s",
-    "StrVectorAppend:own": "x:s k:i", "setStr:own": "x:s i:i k:i",
+    "StrVectorAppend:own": "x:s k:i", "setStr:own": "x:s i:i k:i", "StrVectorAppendInt:big": "x:s c:S", "StrVectorAppendDouble:big": "x:s c:S",
     "SplitString": "x:s toks:W decor:i",
     "initMatrix": "x:s", "NewMatrix": "x:s r:i c:i", "DelMatrix": "x:s", "ResizeMatrix": "x:s r:i c:i", "MatrixSet": "x:s v:i", "MatrixCopy": "src:s dst:s",
     "setMatrixValue": "x:s i:i j:i v:i", "getMatrixValue": "x:s i:i j:i ret:R", "getMatrixRow": "x:s i:i y:s?", "getMatrixColumn": "x:s j:i y:s?",
@@ -446,7 +453,13 @@ class Script:
                     self.lines.append(" ".join(str(t) for t in e))
 
     def text(self):
-        head = ["STR %d %s" % (i, LONGSTR.get(s, s).encode().hex() or "-") for s, i in self.strs.items()]
+        head = []
+        for s, i in self.strs.items():
+            if s.startswith("<D:") or s.startswith("<I:"):
+                # a number of the K4 long-number-text set: the harness formats the reference text itself (snprintf) and passes the value to the call
+                head.append("NUM %d %s %s" % (i, s[1].lower(), NUMVAL.get(s[3:-1], s[3:-1])))
+            else:
+                head.append("STR %d %s" % (i, LONGSTR.get(s, s).encode().hex() or "-"))
         return "\n".join(head + self.lines) + "\n"
 
 
@@ -762,7 +775,7 @@ REQUIRED_CLASSES = {   # class -> (family, MaxDim) of the generator run that top
     "K1:n=p+-1": ("mx", 5), "K1:append-row-onto-cols0": ("mx", 5), "K1:append-col-onto-rows0": ("mx", 5), "K1:layers-differ": ("tn", 5), "K1:delete-first": ("mx", 5), "K1:delete-last": ("mx", 5), "K1:delete-only": ("mx", 5),
     "K2:size31|K2:size32|K2:size33": ("dv", 66), "K2:size63|K2:size64|K2:size65": ("dv", 66), "K2:rows31|K2:rows32|K2:rows33|K2:cols31|K2:cols32|K2:cols33": ("mx", 66),
     "K2:rows63|K2:rows64|K2:rows65|K2:cols63|K2:cols64|K2:cols65": ("mx", 66), "K2:string-256": ("sv", 5), "K2:oor-mid-range": ("mx", 5), "K4:oor-far-index": ("mx", 5),
-    "K4:huge-values": ("mx", 5), "K5:tenths": ("dv", 5), "K7:extend-self": ("dv", 5), "K7:operand-inside-destination": ("tn", 5), "K7:recreate-in-freed-slot": ("dv", 5),
+    "K4:huge-values": ("mx", 5), "K4:long-number-text": ("sv", 5), "K5:tenths": ("dv", 5), "K7:extend-self": ("dv", 5), "K7:operand-inside-destination": ("tn", 5), "K7:recreate-in-freed-slot": ("dv", 5),
     "K7:append-after-resize0": ("dv", 5), "K7:address-reuse": ("dv", 5), "K8:sort-tie-distinct": ("mx", 5), "K8:sort-tie-dup": ("mx", 5), "K8:duplicate-rows": ("mx", 5),
     "K8:empty-string": ("sv", 5),
 }
@@ -883,7 +896,7 @@ def run(ctx):
             "K1": "emitted: tall / wide / square / n=p+-1 / single row / single column / zero rows / zero columns / empty, tensor layers of different shapes, delete at first / last / only index",
             "K2": "emitted: sizes 3..5, 7..9, 15..17, 31..33, 63..65 (vectors, matrix rows / columns, list elements), strings of 255..257 characters, mid-range out-of-range indices",
             "K3": "outside the quantifier: container calls do no arithmetic on cell values",
-            "K4": "emitted: huge palette (2^31+5, 2^32+1, 65537, INT_MAX, signed), far out-of-range indices ((size_t)-1, 2^63, 2^63+1, 2^32)",
+            "K4": "emitted: huge palette (2^31+5, 2^32+1, 65537, INT_MAX, signed), far out-of-range indices ((size_t)-1, 2^63, 2^63+1, 2^32), numbers with long or degenerate decimal text for StrVectorAppendDouble / StrVectorAppendInt (1e24 .. DBL_MAX: 31 .. 317 characters, DBL_MIN, INT_MIN / INT_MAX)",
             "K5": "emitted: tenths palette (0.1, 0.2, 0.3: not representable)",
             "K6": "not applicable: no container routine reaches an MT_* kernel",
             "K7": "emitted: 40 calls in one process with slots deleted and re-created, append after resize to 0, Extend(a, a), an own layer / element as the operand, plain build with freed addresses reused at once (measured), self-copies (EXTRA only)",
